@@ -9,6 +9,7 @@ import (
 	"io/ioutil"
 	"log"
 	"strings"
+	"sync"
 	"testing"
 
 	"github.com/pion/webrtc/v3"
@@ -45,6 +46,28 @@ func c13HostileAnswer(r *vlib.Rand, i int) (string, string) {
 	return strings.Join(out, "\r\n") + "\r\n", fmt.Sprintf("inserted %q at line %d", ln, pos)
 }
 
+// c13StructuralAnswers: descriptions whose SHAPE is unusual rather than one of
+// their lines - what a lenient SDP implementation may accept although no real
+// proxy produces it: ICE credentials, fingerprint and setup at session level
+// with no media section at all, with an empty media section, with a rejected
+// (port 0) section, with two sections, with the section of another kind.
+func c13StructuralAnswers() []string {
+	const sess = "v=0\r\no=- 4358805017720277108 2 IN IP4 8.8.8.8\r\ns=-\r\nt=0 0\r\n"
+	const cred = "a=ice-ufrag:aMAZ\r\na=ice-pwd:jcHb08Jjgrazp2dzjdrvPPvV\r\na=fingerprint:sha-256 C8:88:EE:B9:E7:02:2E:21:37:ED:7A:D1:EB:2B:A3:15:A2:3B:5B:1C:3D:D4:D5:1F:06:CF:52:40:03:F8:DD:66\r\na=setup:active\r\n"
+	const media = "m=application 56688 UDP/DTLS/SCTP webrtc-datachannel\r\nc=IN IP4 8.8.8.8\r\n"
+	const cand = "a=candidate:3769337065 1 udp 2122260223 192.0.2.250 56688 typ host\r\n"
+	return []string{
+		sess + cred, // session-level credentials, no media section
+		sess + "a=group:BUNDLE 0\r\n" + cred,
+		sess + cred + media + "a=mid:0\r\na=sctp-port:5000\r\n",                         // credentials only at session level
+		sess + cred + "m=application 0 UDP/DTLS/SCTP webrtc-datachannel\r\na=mid:0\r\n", // rejected section
+		sess + cred + "m=audio 9 UDP/TLS/RTP/SAVPF 111\r\nc=IN IP4 0.0.0.0\r\na=mid:0\r\na=rtpmap:111 opus/48000/2\r\n",
+		sess + "a=group:BUNDLE 0 1\r\n" + media + cand + cred + "a=mid:0\r\na=sctp-port:5000\r\n" + media + cred + "a=mid:1\r\na=sctp-port:5000\r\n",
+		sess + media, // a section without anything
+		sess + media + cand + "a=ice-ufrag:aMAZ\r\na=ice-pwd:jcHb08Jjgrazp2dzjdrvPPvV\r\n", // no fingerprint
+	}
+}
+
 func TestVerifC13ClientAnswer(t *testing.T) {
 	res := vlib.NewResult("C13", "inpkg-clientlib-c13-answer", "the real NewWebRTCPeerWithEvents with a scripted rendezvous returning hostile answers (the base answer with one line of any SDP line type inserted with 0-3 odd fields, truncations, plus fixed witnesses); the attempt must come back as an error, never panic; non-trivial = every hostile answer, distinct by text")
 	defer res.Finish()
@@ -55,15 +78,12 @@ func TestVerifC13ClientAnswer(t *testing.T) {
 		"v=0\r\no=- 0 0 IN IP4 0\r\ns=-\r\nt=0 0\r\nr=1\r\n",
 		"",
 	}
+	witnesses = append(witnesses, c13StructuralAnswers()...)
 	n := vlib.Scale(60, 400)
 	cfg := &webrtc.Configuration{}
-	for i := 0; i < n+len(witnesses); i++ {
-		var sdp, desc string
-		if i < len(witnesses) {
-			sdp, desc = witnesses[i], "fixed witness"
-		} else {
-			sdp, desc = c13HostileAnswer(r.SplitN("case", i), i)
-		}
+	var wwg sync.WaitGroup
+	runCase := func(i int, sdp, desc string) {
+		defer wwg.Done()
 		rec := map[string]interface{}{"case": fmt.Sprintf("answer/%d", i), "sdp": sdp, "how": desc}
 		res.CaseLog(fmt.Sprintf("answer/%d", i))
 		res.Eval(1)
@@ -104,6 +124,18 @@ func TestVerifC13ClientAnswer(t *testing.T) {
 		if i < 3 {
 			res.Sample(3, rec)
 		}
+	}
+	// the fixed witnesses all at once (an answer the library accepts costs the 10 s
+	// wait for a data channel that never opens), the generated ones one after another
+	for i := range witnesses {
+		wwg.Add(1)
+		go runCase(i, witnesses[i], "fixed witness")
+	}
+	wwg.Wait()
+	for i := len(witnesses); i < n+len(witnesses); i++ {
+		sdp, desc := c13HostileAnswer(r.SplitN("case", i), i)
+		wwg.Add(1)
+		runCase(i, sdp, desc)
 	}
 	res.RequireObs("answers_reported_as_error", 50)
 }
